@@ -4,10 +4,13 @@ go 1.26.0
 
 replace go.sia.tech/core => /repo
 
-require go.sia.tech/core v0.0.0-00010101000000-000000000000
+require (
+	go.sia.tech/core v0.0.0-00010101000000-000000000000
+	golang.org/x/crypto v0.55.0
+)
 
 require (
-	golang.org/x/crypto v0.55.0 // indirect
+	go.sia.tech/mux v1.5.3 // indirect
 	golang.org/x/sys v0.47.0 // indirect
 	lukechampine.com/frand v1.5.1 // indirect
 )
